@@ -27,7 +27,7 @@ from ..kgen import Cfg, L, Program, S
 ID = "C11"
 LEVEL = "exploration"
 RULE = (
-    "1 tree x all 1- and 2-line rename tables over a 12-line alphabet (2-line tables as one file and split over two files) x all "
+    "1 tree x all 1- and 2-line rename tables over a 14-line alphabet (2-line tables as one file and split over two files) x all "
     "ordered sdkconfig files of <=2 (quick) / <=3 (thorough) lines over the old/new names of the table in the forms =v, `is not set`; "
     "plus, per table x configuration, the deprecated-block clauses. distinct_nontrivial = distinct (table, file) pairs in which at least "
     "one line uses a deprecated name."
@@ -51,6 +51,7 @@ ALPHABET = [
     "CONFIG_old_lower CONFIG_B",
     "CONFIG_DEFINED_OLD CONFIG_B",
     "CONFIG_OLD_BP CONFIG_BP",
+    "CONFIG_OLD_B !CONFIG_B",
 ]
 
 TREE = Program(children=[
